@@ -26,7 +26,7 @@ def classify(s, opt_array_ok):
 
 def run(ctx):
     n = 1500 if ctx.tier == "quick" else 20000
-    pool, inferred = genlib.gen_pool(ctx, n)
+    pool, inferred = genlib.gen_pool(ctx, n, deep_chains=True)
     ascii_pool = [(s, p) for s, p in pool if genlib.printable_shape(s)]
     ts = [sh_str(s) for s, _ in ascii_pool]
     mi, _ = ctx.correspond(["gen_render\t" + t for t in ts], "render on shapes",
